@@ -36,6 +36,14 @@ Theorem C24_all_unauthorized_inert : forall e p r,
 Proof. exact all_unauthorized_inert. Qed.
 Print Assumptions C24_all_unauthorized_inert.
 
+(* "creates no topic": whatever the request kind, a topic is created only for a principal
+   that may PRODUCE to it (auto-creation via Metadata, Produce, Fetch, ListOffsets) or that
+   administers the cluster (CreateTopics); fetch permission alone never creates a topic *)
+Theorem C24_creation_needs_permission : forall e p r n,
+  In n (creates e p r) -> p AProduce RTopic n = true \/ p AAdmin RCluster s_cluster = true.
+Proof. exact creation_needs_permission. Qed.
+Print Assumptions C24_creation_needs_permission.
+
 (* the guard order the model relies on is the one in the source, case by case
    (gen/DispatchTable.v is regenerated from cmd/broker/main.go on every run; the
    per-case lemmas dispatch_<Kind> in proofs/DispatchProofs.v name the case that breaks) *)
